@@ -36,6 +36,12 @@ VInt(i)    == VNum("i", BN(i))       \* int64 literal with a small value
 VFlt(i)    == VNum("f", BN(i))       \* float64 with a small integral value
 VHalf(i)   == VNum("f", BNMk(i < 0, <<IF i < 0 THEN -i ELSE i>>, -1))  \* i/2 as float64
 VAnyId     == [t |-> "anyid"]
+(* IEEE-754 has a negative zero and BigNum does not.  A float64 zero that a  *)
+(* computation produced (-(0.0), 0.0 * -1, ceiling(-0.5), "-0".double() ...) *)
+(* is marked: its value is zero in every comparison and operation, but the   *)
+(* specification declines to say whether .string() prints "0" or "-0".       *)
+MarkZ(v) == IF v.t = "num" /\ v.rep = "f" /\ BNIsZero(v.n) THEN [t |-> "num", rep |-> "f", n |-> v.n, mz |-> TRUE] ELSE v
+IsMarkedZero(v) == v.t = "num" /\ "mz" \in DOMAIN v
 
 IsNull(v) == v.t = "null"
 IsBool(v) == v.t = "bool"
